@@ -1127,11 +1127,22 @@ pub fn gen_case_on(rng: &mut Rng, opts: &GenOpts, coords: Vec<(f32, f32)>, edges
         Trav::Dist(du)
     };
     let access = if use_turn {
+        // one case in three draws its headings from the class boundaries of the turn table (and 0), so
+        // that turns of exactly 19/20, 44/45, 134/135, 159/160 and 180 degrees, on either side, are
+        // taken all the time and not once in 360 turns
+        const BOUNDARY: [i16; 19] = [0, 19, 20, 44, 45, 134, 135, 159, 160, 180, 181, 200, 201, 225, 226, 315, 316, 340, 341];
+        let boundary_mode = rng.chance(1, 3);
         let headings = (0..n_e)
             .map(|_| {
-                let a = rng.range(0, 359) as i16;
-                let d = if rng.chance(1, 3) { None } else { Some(rng.range(0, 359) as i16) };
-                (a, d)
+                if boundary_mode {
+                    let a = if rng.chance(1, 2) { 0 } else { *rng.pick(&BOUNDARY) };
+                    let d = if rng.chance(1, 2) { None } else if rng.chance(1, 2) { Some(0) } else { Some(*rng.pick(&BOUNDARY)) };
+                    (a, d)
+                } else {
+                    let a = rng.range(0, 359) as i16;
+                    let d = if rng.chance(1, 3) { None } else { Some(rng.range(0, 359) as i16) };
+                    (a, d)
+                }
             })
             .collect();
         let mut delays = [None; 8];
